@@ -1271,12 +1271,23 @@ fn vi_undo_keys(rng: &mut Rng, insert_mode: &mut bool, out: &mut Vec<String>) {
             76..=79 => {
                 // a grouped command that changes nothing (C-t on fewer than two clusters, a search
                 // that finds nothing, left with C-g): an EMPTY group inside the open session
-                if rng.chance(1, 2) {
-                    out.push("14".to_string());
-                } else {
-                    out.push("12".to_string());
-                    out.push("71".to_string());
-                    out.push("07".to_string());
+                match rng.below(3) {
+                    0 => out.push("14".to_string()),
+                    1 => {
+                        out.push("12".to_string());
+                        out.push("71".to_string());
+                        out.push("07".to_string());
+                    }
+                    _ => {
+                        // D47: a key that leaves insert mode INSIDE the search (Alt-X closes the
+                        // session's undo group below the search's mark), abort in command mode, undo
+                        out.push("12".to_string());
+                        out.push(tok_char(*rng.pick(&['a', 'q', 'Z'])));
+                        out.push("1b58".to_string());
+                        out.push("07".to_string());
+                        out.push("75".to_string());
+                        *insert_mode = false;
+                    }
                 }
             }
             _ => {
@@ -1441,7 +1452,8 @@ fn random_helper(rng: &mut Rng, flags: &mut String, profile: Profile, cols: u16)
                     rng.pick(&["ab", "abc", "abé", "b", "", "a b", "aZ", "漢a", "漢ab", "éc", "éco", "écoute", "abé", "ab本", "ab朝"]).to_string()
                 })
                 .collect();
-        if cols <= 20 && rng.chance(1, 4) {
+        let wide = cols <= 20 && rng.chance(1, 4);
+        if wide {
             // candidates about as wide as the terminal (the listing's column arithmetic)
             for _ in 0..(1 + rng.below(2)) {
                 let w = (cols as usize).saturating_sub(3) + rng.below(6);
@@ -1453,7 +1465,8 @@ fn random_helper(rng: &mut Rng, flags: &mut String, profile: Profile, cols: u16)
             }
         }
         parts.push(format!("C={}", enc_texts(&cands)));
-        if rng.chance(1, 3) {
+        if rng.chance(1, 3) || (wide && rng.chance(2, 3)) {
+            // (the wide ones matter in the listing only)
             flags.push('l');
         }
     }
@@ -1600,6 +1613,14 @@ pub fn gen_profile(ctx: &GenCtx, tag: &str, profile: Profile, sink: &mut dyn FnM
         let mut toks: Vec<String> = vec![];
         let mut insert_mode = true;
         let mut big_used = false;
+        if flags.contains('l') && helper.contains("C=") && rng.chance(1, 2) {
+            // the listing itself: a second Tab on an ambiguous completion
+            if rng.chance(1, 2) {
+                toks.push("61".to_string());
+            }
+            toks.push("09".to_string());
+            toks.push("09".to_string());
+        }
         for _ in 0..k {
             if profile == Profile::Malformed && rng.chance(1, 3) {
                 toks.push(malformed_token(&mut rng, &mut big_used));
